@@ -4,7 +4,8 @@
    (forwarded or not) and what the real sql.Parse + queryTopics say about the
    full text; and the answers of the real matchPatterns for every topic involved.
    [check_case] replays the connection on the model and compares the forwarding
-   decisions, compares the token-level topic extraction with the real parser on
+   decisions, compares the real cacheKey of every text with the model's cache_key
+   (so any change of the key function is a mismatch at once), compares the token-level topic extraction with the real parser on
    every text, and evaluates the string laws assumed by the proofs on every text. *)
 From KS Require Import lib.Base model.SqlParse model.SqlProxy.
 Open Scope Z_scope.
@@ -14,7 +15,8 @@ Record msg := mkMsg {
   m_parse_ok : bool;           (* sql.Parse(text) returned no error *)
   m_topics : list bytes;       (* queryTopics(Parse(text)) when it did *)
   m_show : bool;
-  m_forwarded : bool           (* the upstream received exactly this text *)
+  m_forwarded : bool;          (* the upstream received exactly this text *)
+  m_key : bytes                (* the real cacheKey(text) *)
 }.
 
 Record case := mkCase {
@@ -68,6 +70,7 @@ Definition msg_ok (k : case) (m : msg) : bool :=
   let '(ts, show) := token_topics (tokens (m_text m)) in
   (negb (m_parse_ok m) ||
    (lb_eqb ts (m_topics m) && Bool.eqb show (m_show m) && forallb (known k) ts)) &&
+  bytes_eqb (cache_key (m_text m)) (m_key m) &&
   laws_hold (m_text m).
 
 Definition check_case (k : case) : bool :=
